@@ -39,7 +39,18 @@ Pool == <<
   Set("a", ArrE(<<V("x"), I(2)>>)),
   Destruct(<<"p", "q">>, TupE(<<V("x"), Deref(V("c"))>>)),
   \* a destructuring that re-binds a name another element of its own initialiser still reads
-  Destruct(<<"x", "w">>, TupE(<<I(5), V("x")>>))
+  Destruct(<<"x", "w">>, TupE(<<I(5), V("x")>>)),
+  \* iterators: `~' makes a new cursor every time it is evaluated (second run of the same program, second round of a loop)
+  Set("it", IterE(ArrE(<<I(1), I(2)>>))),
+  Set("n", CollectE(V("it"))),
+  Set("n", Block(<<Set("k", MutE(WInt, I(0))), Set("s", MutE(WInt, I(0))),
+                   While(Bin("<", Deref(V("k")), I(2)), Block(<<Asg("+=", V("k"), I(1)), Asg("+=", V("s"), RedE("$+", "int", IterE(V("a"))))>>)),
+                   Deref(V("s"))>>)),
+  \* an array literal over a name whose static type is wider than its value: the array's element type is that of its
+  \* VALUES whichever route built it (observed by a type test)
+  Set("u", Hide(WMulti(<<WInt, WStr>>), I(5))),
+  Set("ua", ArrE(<<V("u"), I(7)>>)),
+  Set("tt", IfSet("qq", WArr(WInt), V("ua"), I(1), I(0)))
 >>
 \* a statement can only be fed when the names it uses are bound: sessions are generated freely and the
 \* specification classifies ill-formed ones as "stuck" (unbound name) — those are expected to be rejected.
